@@ -267,9 +267,22 @@ def _run_parallel(args, jobs, limit_s):
                 pr.join(5)
                 done.append(pid)
             elif not pr.is_alive():
-                ctx = TaskCtx(arg[1], arg[2], arg[3])
-                ctx.errors.append('worker exited with code %s' % pr.exitcode)
-                outs.append(ctx.export())
+                # the worker may have sent its result and exited between the
+                # poll above and this test: look once more before calling it
+                # dead
+                got = None
+                if pc.poll(0.5):
+                    try:
+                        got = pc.recv()
+                    except EOFError:
+                        got = None
+                if got is None:
+                    ctx = TaskCtx(arg[1], arg[2], arg[3])
+                    ctx.errors.append('worker exited with code %s' %
+                                      pr.exitcode)
+                    got = ctx.export()
+                outs.append(got)
+                pr.join(5)
                 done.append(pid)
             elif time.time() - t_start > limit_s:
                 pr.kill()
